@@ -44,6 +44,8 @@ type caseRec struct {
 	DupPath  bool                 `json:"dupPath"`
 	Missing  bool                 `json:"missing"`
 	WktVendored bool              `json:"wktVendored"`
+	WktVendoredC bool             `json:"wktVendoredC"`
+	BuildMustFailA bool           `json:"buildMustFailA"`
 	Newest   int                  `json:"newest"`
 	AnyCycle bool                 `json:"anyCycle"`
 	FromTargets []string          `json:"fromTargets"`
@@ -55,7 +57,7 @@ type input struct {
 	Corrupt bool      `json:"corrupt"`
 }
 
-var pathOf = map[string]string{"a1": "a/a1.proto", "a2": "a/a2.proto", "b1": "b/b1.proto", "c1": "c/c1.proto", "wkt": "google/protobuf/duration.proto"}
+var pathOf = map[string]string{"a1": "a/a1.proto", "a2": "a/a2.proto", "b1": "b/b1.proto", "c1": "c/c1.proto", "wkt": "google/protobuf/type.proto"}
 var pkgOf = map[string]string{"a1": "pa1", "a2": "pa2", "b1": "pb1", "c1": "pc1"}
 
 func render(f string, imports []string, extraImport string, marker string) []byte {
@@ -71,7 +73,7 @@ func render(f string, imports []string, extraImport string, marker string) []byt
 	n := 2
 	for _, g := range imports {
 		if g == "wkt" {
-			sb.WriteString(fmt.Sprintf("  google.protobuf.Duration r%d = %d;\n", n, n))
+			sb.WriteString(fmt.Sprintf("  google.protobuf.Type r%d = %d;\n", n, n))
 		} else {
 			sb.WriteString(fmt.Sprintf("  %s.M%s r%d = %d;\n", pkgOf[g], g, n, n))
 		}
@@ -122,10 +124,24 @@ func (p *provider) GetCommitsForCommitKeys(context.Context, []bufmodule.CommitKe
 func bFiles(c caseRec, marker string) map[string][]byte {
 	m := map[string][]byte{pathOf["b1"]: render("b1", c.ImpB1, "", marker)}
 	if c.WktVendored {
-		m[pathOf["wkt"]] = []byte("syntax = \"proto3\";\npackage google.protobuf;\n// vendored copy\nmessage Duration { int64 seconds = 1; int32 nanos = 2; }\n")
+		m[pathOf["wkt"]] = vendoredWkt("B")
 	}
 	if c.DupPath {
 		m[pathOf["c1"]] = []byte("syntax = \"proto3\";\npackage pc1;\n// a second provider of this path\nmessage Mc1 { string id = 1; }\n")
+	}
+	return m
+}
+
+// vendoredWkt is a module's own copy of the well-known type (the built-in one imports any.proto and source_context.proto,
+// which only the built-in copy brings along).
+func vendoredWkt(owner string) []byte {
+	return []byte("syntax = \"proto3\";\npackage google.protobuf;\n// vendored copy of " + owner + "\nmessage Type { string name = 1; }\n")
+}
+
+func cFilesFor(c caseRec, commit int) map[string][]byte {
+	m := cFiles(commit)
+	if c.WktVendoredC {
+		m[pathOf["wkt"]] = vendoredWkt("C")
 	}
 	return m
 }
@@ -140,7 +156,7 @@ func cFiles(commit int) map[string][]byte {
 
 func describe(c caseRec) map[string]any {
 	return map[string]any{"a1_imports": c.ImpA1, "a2_imports": c.ImpA2, "b1_imports": c.ImpB1, "B": c.BKind, "C_commits_in_order_added": c.CCommits,
-		"B_also_provides_c1_path": c.DupPath, "B_vendors_the_wkt_a1_may_import": c.WktVendored, "a2_imports_missing_path": c.Missing}
+		"B_also_provides_c1_path": c.DupPath, "B_vendors_the_wkt_a1_may_import": c.WktVendored, "C_vendors_it_too": c.WktVendoredC, "a2_imports_missing_path": c.Missing}
 }
 
 func build(ctx context.Context, c caseRec) (bufmodule.ModuleSet, error) {
@@ -213,7 +229,7 @@ func build(ctx context.Context, c caseRec) (bufmodule.ModuleSet, error) {
 		builder.AddRemoteModule(key, false)
 	}
 	for _, commit := range c.CCommits {
-		key, err := remoteKey("c", commit, cFiles(commit), helperB)
+		key, err := remoteKey("c", commit, cFilesFor(c, commit), helperB)
 		if err != nil {
 			return nil, fmt.Errorf("remote C@%d: %w", commit, err)
 		}
@@ -365,7 +381,7 @@ func run(in []byte) (*reg.Result, error) {
 							res.Violate("dag/edges", caseInfo, "dependency graph edges %v, the specification requires %v", gotEdges, wantEdges)
 						}
 					}
-					if c.DupPath {
+					if c.DupPath || c.WktVendoredC {
 						continue // an ambiguous path somewhere in the workspace: either command may report it
 					}
 					// ls-files --include-imports vs the files of the built image
